@@ -200,9 +200,15 @@ Section InterpFacts.
     match type of H with (let (_, _) := alloc ?hh ?nn in _) = _ => destruct (alloc hh nn) as [h4 o] eqn:Ea2 end.
     leaf. eapply grows_then_keeps; [exact G1|]. eapply keeps_trans; [exact K2|].
     eapply keeps_then_grows; [|eapply alloc_grows; eauto].
-    match goal with |- keeps _ _ (if ?c then _ else _) => destruct c end; [|apply keeps_refl].
-    destruct (set_item h2 s (u "id") (VA (AStr (u "<deterministic-id>")))) as [hd|] eqn:Es; [|apply keeps_refl].
-    eapply wrote_keeps; [|eapply set_item_wrote]; eauto.
+    match goal with |- keeps _ _ (if ?c then _ else _) => destruct c end.
+    - match goal with |- keeps _ _ (match set_item ?a ?b ?c ?d with _ => _ end) => destruct (set_item a b c d) as [hd|] eqn:Es end.
+      + eapply keeps_trans; [|eapply wrote_keeps; [|eapply set_item_wrote]; eauto].
+        match goal with |- keeps _ _ (match ?x with _ => _ end) => destruct x as [hu|] eqn:Eu end; [|apply keeps_refl].
+        eapply wrote_keeps; [|eapply update_items_wrote]; eauto.
+      + match goal with |- keeps _ _ (match ?x with _ => _ end) => destruct x as [hu|] eqn:Eu end; [|apply keeps_refl].
+        eapply wrote_keeps; [|eapply update_items_wrote]; eauto.
+    - match goal with |- keeps _ _ (match ?x with _ => _ end) => destruct x as [hu|] eqn:Eu end; [|apply keeps_refl].
+      eapply wrote_keeps; [|eapply update_items_wrote]; eauto.
   Qed.
 
   Lemma parse_dict_grows : forall v ver ac h h' res, parse_dict W rec v ver ac h = (h', res) -> grows h h'.
